@@ -88,8 +88,9 @@ LeafOK(lf, s) ==
 (* description and content-id read back as they were set (whitespace-normalised by the reader) *)
 LeafValuesOK(lf, s) ==
   /\ (s.kind # "part" => lf.fname = s.fname)
-  /\ (s.desc # "" => lf.desc = s.desc)
+  /\ lf.desc = s.desc                       \* also: no description where none was set (nothing of another part's header)
   /\ (s.cid # "" => lf.cid = s.cid)
+  /\ ((s.kind = "att" /\ s.cid = "") => ~lf.hascid)
 
 TreeFlags(e) ==
   LET np == Count(b.slots, "part")  ne == Count(b.slots, "embed")  na == Count(b.slots, "att")
